@@ -179,18 +179,19 @@ func (e *Engine) Prepare() {
 		if strings.HasPrefix(p.Pkg.Path(), e.ModPath) {
 			continue
 		}
-		init := p.Func("init")
-		if init == nil {
-			continue
-		}
-		for _, b := range init.Blocks {
-			for _, ins := range b.Instrs {
-				switch st := ins.(type) {
-				case *ssa.Store:
-					if g := rootGlobal(st.Addr); g != nil && g.Name() != "init$guard" {
-						e.needsInit[g] = true
+		// the synthesised init and the source-level init functions (init#1, ...)
+		for name, m := range p.Members {
+			fn, ok := m.(*ssa.Function)
+			if !ok || !strings.HasPrefix(name, "init") {
+				continue
+			}
+			for _, b := range fn.Blocks {
+				for _, ins := range b.Instrs {
+					if st, ok := ins.(*ssa.Store); ok {
+						if g := rootGlobal(st.Addr); g != nil && g.Name() != "init$guard" {
+							e.needsInit[g] = true
+						}
 					}
-				case *ssa.MapUpdate:
 				}
 			}
 		}
